@@ -313,6 +313,11 @@ def fam_cli_kida(rng, idx):
     if rng.random() < 0.5:
         have = species_names("mixed", ars)
         net["required_species"] = rng.sample([x for x in ["He", "He+", "N", "D", "D+"] if x not in have], 2)
+    if idx % 2 == 1:
+        # a project that leaves both lists empty: the COMMAND installs what the config says, so "empty"
+        # means naunet's defaults whatever was installed before (unlike an API network without lists,
+        # which inherits the ambient lists by design and is therefore never a victim here)
+        net["elements"], net["pseudo_elements"] = [], []
     cli = {"files": ["net.kida"], "formats": ["kida"]}
     cli["solver"], cli["method"], cli["device"] = rng.choice(METHODS)
     return {"id": f"cli-kida-{idx}", "family": "cli-kida", "entry": "cli", "name": "simproj", "files": {"net.kida": content},
